@@ -52,7 +52,11 @@ def main():
         "checks": checks,
         "not_applicable": [{"property_id": pid, "reason": NOT_YET} for pid in ids if pid not in CHECKS],
         "notes": "All checks: ./check <ID> --tier quick|thorough; env VERIF_SEED, VERIF_REPO (tree under test, default /repo). "
-                 "Known genuine defects are listed in KNOWN_FINDINGS.txt.",
+                 "No instrumentation of /repo: hooks.source_commits is empty; /repo's own commits on top of the pinned snapshot are "
+                 "20 unguarded 'fix:' commits repairing genuine defects (recorded as 'fixed:' lines in KNOWN_FINDINGS.txt; DESIGN.md §7). "
+                 "Genuine defects that were not repaired are 'finding:' lines there; each check replays their witnesses on every run. "
+                 "tools/sweep.sh (all checks x seeds), tools/replay_seeded.sh (every seeded change in seeded/ must give a VIOLATION), "
+                 "tools/validate.py (schemas).",
     }
     with open(os.path.join(V, "MANIFEST.json"), "w") as f:
         json.dump(m, f, indent=1)
